@@ -302,3 +302,56 @@ TEXT["C18"] = cluster_text(
     "injected and the resulting datagrams are delivered in random order. TLC evaluates MonCluster!C18: at most 2*fanout+2 datagrams per "
     "delivery and an empty network within the cap 50 + 4*maxtx*n^2*fanout. Complete traces are also checked for conformance.",
     "cluster simulator with timers held on real instances + TLA+ monitor (MonCluster!C18) evaluated by TLC")
+
+PROPS["C14"] = {
+    "level": "model_checking",
+    "monitors": ["C14"],
+    "exhaustive": True,
+    "mc": [
+        {"module": "MC_C14", "cfg": "MC_C14_3_2.cfg", "workers": 8, "timeout": 1500,
+         "what": "exhaustive: 3 active + 2 Down records, all 120 orders x 7 cursors, every permutation at every reshuffle"},
+        {"module": "MC_C14", "cfg": "MC_C14_4_1.cfg", "workers": 8, "timeout": 2400, "tiers": ("thorough",),
+         "what": "exhaustive: 4 active + 1 Down record"},
+    ],
+    "drivers": {
+        "quick": [{"args": ["c14", "--sets", "250", "--nmax", "6"], "shards": 3}],
+        "thorough": [{"args": ["c14", "--sets", "1500", "--nmax", "8"], "shards": 8}],
+    },
+    "goals": {"cov_rounds": {"quick": 5000, "thorough": 100000}},
+}
+TEXT["C14"] = {
+    "level_text": ("Members::next is transcribed exactly (spec/Members.tla: NextMember - reshuffle iff the cursor passed the end, "
+                   "first active record at/after the cursor, wrap-around sets the cursor to MAX). TLC explores it exhaustively "
+                   "from EVERY initial arrangement (all orders of n active and d Down records, every cursor value incl. MAX) with "
+                   "every permutation at every reshuffle and checks that no active member goes 2n-1 rounds unprobed and that a "
+                   "Down record is never chosen; the bound is tight in the model. On the real code stable sets of 1..6 (..8) active "
+                   "and 0..3 Down records are reached through joins, removals and forgetting in random order, then probed for 6n "
+                   "rounds: each round's NextMember step is checked exactly (order, cursor, chosen) by conformance and the window "
+                   "property by spec/MonC14.tla on the observed Ping destinations."),
+    "level_note": NODE_NOTE,
+    "technique": "TLA+ spec + TLC exhaustive over all orders/cursors/Down layouts (MC_C14) + trace validation of probe rounds (exact NextMember conformance + MonC14)",
+}
+
+PROPS["C17"] = {
+    "level": "model_checking",
+    "monitors": ["C17"],
+    "mc": node_mc("C17"),
+    "drivers": {
+        "quick": [{"args": ["twin", "--runs", "40", "--steps", "200"], "shards": 4}],
+        "thorough": [{"args": ["twin", "--runs", "100", "--steps", "400"], "shards": 12}],
+    },
+    "goals": {"cov_inserted": {"quick": 20000, "thorough": 300000}},
+}
+TEXT["C17"] = {
+    "level_text": ("On the specification the property is the invariant RejectedLeavesNoTrace of MC_Node: in every reachable state "
+                   "(exhaustive tiny scope, random walks of depth 60 beyond it) every input of the rejected classes - oversized, "
+                   "undecodable header / member list, own identity or address as source, one stray byte or an Announce with data "
+                   "right after the header, wrong destination, stale-epoch timers of every kind, NotUndead, SameIdentity, "
+                   "InvalidConfig, empty / oversized add_broadcast - is a stuttering step with the class's result; determinism is "
+                   "structural (Step is a function of state, input and the tape of RNG choices). On the real code twin lanes run "
+                   "the same base history with and without 0..3 rejected inputs inserted before every step; TLC (spec/MonC17.tla) "
+                   "requires results, ordered effects, public view, hook view, handler calls and the RNG draw count to coincide at "
+                   "every aligned step and every inserted input to change nothing; each call is also checked for conformance."),
+    "level_note": NODE_NOTE,
+    "technique": "TLA+ spec + TLC (MC_Node invariant RejectedLeavesNoTrace) + twin-run driver with trace validation (MonC17)",
+}
